@@ -363,3 +363,84 @@ def check_C20(ctx):
                   "the size_hint lower bound; every completed behaviour (including the abandoned iterators before it) is replayed through "
                   "the real SliderEventsIter on one buffer; non-trivial = distinct (history, parameters) with ticks/repeats or an abandoned "
                   "predecessor; random lattice parameters with random abandon points are validated call by call by Trace_SliderEvents")
+
+
+# ----------------------------------------------------------------------------
+def curve_cases(ctx, steps, stepset, cases):
+    cfg = dict(spec="Spec", invariants=["Contract", "CutOrExtend", "PosFacts"],
+               constants=dict(MaxSteps=str(steps), StepSet='"%s"' % stepset, Emit="TRUE"))
+    return tlc(ctx, "CurveLength", "MC_CurveLength_%s_%d" % (stepset, steps), cfg, workers=14, timeout=3000, cases_file=cases)
+
+
+def check_curve(ctx, prop):
+    thorough = ctx.tier == "thorough"
+    sany(ctx, "CurveLength")
+    cases = os.path.join(ctx.work, "curve.ndjson")
+    if thorough:
+        curve_cases(ctx, 3, "full", cases)
+        curve_cases(ctx, 4, "small", cases)
+    else:
+        curve_cases(ctx, 2, "full", cases)
+        curve_cases(ctx, 3, "small", cases)
+    summ = harness(ctx, ["curve", "replay", "--prop", prop], cases_file=cases, name="curve-replay", timeout=3600)
+    return summ
+
+
+def check_C16(ctx):
+    summ = check_curve(ctx, "C16")
+    report_mismatches(ctx, summ, "computed curve differs from the CurveLength specification")
+    ctx.assumptions += ["lattice sub-domain only: Linear and two-point Bezier segments with integer segment lengths; Bezier (>= 3 points), "
+                        "perfect-curve and Catmull segments (and hence the Catmull simplification clause) are NOT covered",
+                        "coordinates compared within 1e-3 + 1e-6*|c| (f32 resolution), lengths within 1e-9 relative"]
+    return finish(ctx, "model_checking",
+                  "TLC enumerates every lattice polyline up to the step bound x every typing of its points (segment splits, two-point "
+                  "Bezier) x requested lengths {none, <=0, 1, each vertex length +-1, natural, natural+1/+7, 100000} and checks the length "
+                  "contract (exact distance, the two exceptions, cut/extend geometry, monotone cumulative lengths); every case is replayed "
+                  "through Curve::new, BorrowedCurve::new and SliderPath::curve in all four modes; non-trivial = distinct cases whose "
+                  "adjusted path has at least two points")
+
+
+def check_C19(ctx):
+    summ = check_curve(ctx, "C19")
+    report_mismatches(ctx, summ, "position along the curve differs from the CurveLength!PosSeg specification")
+    ctx.assumptions += ["lattice sub-domain of C16; progress values k/8 for k in -2..10 and exact vertex fractions; NaN/subnormal progress not covered"]
+    return finish(ctx, "model_checking",
+                  "for every lattice curve of the C16 enumeration (zero-length, duplicate-vertex, truncated and extended curves, the "
+                  "extra-length-entry shape) TLC computes the clamped distance, segment index and interpolation weight for 13 progress values "
+                  "and checks clamping / end-point facts; the real position_at, progress_to_dist, idx_of_dist, interpolate_vertices and their "
+                  "BorrowedCurve twins are compared with them in four modes, plus the vertex-at-its-length and arc-length (Lipschitz) relations "
+                  "on the real values; non-trivial = distinct cases whose adjusted path has at least two points")
+
+
+# ----------------------------------------------------------------------------
+def check_C18(ctx):
+    thorough = ctx.tier == "thorough"
+    sany(ctx, "CurveCache")
+    cases = os.path.join(ctx.work, "cache.ndjson")
+    consts = dict(NPool="5", NLen="2", MaxOps="3", EmptyClears="TRUE", MutClears="TRUE", Emit="TRUE")
+    inv = ["Pure", "CacheCoherent", "EmitCase"]
+    if thorough:
+        tlc(ctx, "CurveCache", "MC_CurveCache_5_2_4", dict(spec="Spec", invariants=inv, constants=dict(consts, MaxOps="4")),
+            workers=14, timeout=3000, cases_file=cases)
+        tlc(ctx, "CurveCache", "MC_CurveCache_2_1_5", dict(spec="Spec", invariants=inv, constants=dict(consts, NPool="2", NLen="1", MaxOps="5")),
+            workers=14, timeout=3000, cases_file=cases)
+    else:
+        tlc(ctx, "CurveCache", "MC_CurveCache_5_2_3", dict(spec="Spec", invariants=inv, constants=consts), workers=14, timeout=3000,
+            cases_file=cases)
+        tlc(ctx, "CurveCache", "MC_CurveCache_2_1_4", dict(spec="Spec", invariants=inv, constants=dict(consts, NPool="2", NLen="1", MaxOps="4")),
+            workers=14, timeout=3000, cases_file=cases)
+    # negative controls: the two deviations the property rules out are violations of the model
+    tlc(ctx, "CurveCache", "Neg_CurveCache_emptykeeps", dict(spec="Spec", invariants=["Pure"],
+        constants=dict(consts, EmptyClears="FALSE", Emit="FALSE")), workers=4, expect_violation=True, count=False)
+    tlc(ctx, "CurveCache", "Neg_CurveCache_mutkeeps", dict(spec="Spec", invariants=["CacheCoherent"],
+        constants=dict(consts, MutClears="FALSE", Emit="FALSE")), workers=4, expect_violation=True, count=False)
+    summ = harness(ctx, ["cache", "replay"], cases_file=cases, name="cache-replay", timeout=3600)
+    report_mismatches(ctx, summ, "a curve depends on the API used or on what the buffers/cache held before")
+    ctx.assumptions += ["F(input) is realised as Curve::new on fresh buffers (purity = equality with the fresh computation)",
+                        "pool of 6 control-point lists (empty, single point, linear, two-segment, bezier+catmull, perfect) x 3 length choices"]
+    return finish(ctx, "model_checking",
+                  "TLC enumerates every sequence of {owned, borrowed, path cache (3 accessors), mutate points, mutate length, clear} "
+                  "operations up to the bound over the input pool sharing one buffer set and one SliderPath, with invariants Pure and "
+                  "CacheCoherent (and two Neg configs showing that a stale buffer for an empty list / a non-invalidating mutator violate "
+                  "them); every sequence is executed on the real API with each result compared bit-for-bit with a fresh computation; "
+                  "non-trivial = distinct operation sequences")
